@@ -271,7 +271,7 @@ def check_always_finalised(repo, rep, uni):
     rep.ob('R10c', ev.key, ok and len(rets) == 1,
            'Statement.evaluate must return self(...) -- the #finalize call '
            '-- on every path', loc=ex.loc(ev.node))
-    call = st.methods.get('__call__')
+    call = norm.inline_tail_calls(repo, st.methods.get('__call__'))
     rets = [r for r in model.walk_shallow(call.node)
             if isinstance(r, ast.Return)]
     ok = bool(rets) and all(
